@@ -81,6 +81,10 @@ def filename_for(codepoints, scheme=0):
         return "-".join("%04x" % c for c in codepoints) + ".svg"
     if scheme == 2:
         return "emoji_u" + "_".join("%04X" % c for c in codepoints) + ".svg"
+    if scheme == 4:
+        return "emoji_u" + "_".join("%08x" % c for c in codepoints) + ".svg"  # zero-padded as %08x / \\U0001f600 spell it
+    if scheme == 5:
+        return "u" + "_".join("%06X" % c for c in codepoints) + ".svg"
     return "-".join("%X" % c for c in codepoints) + ".svg"
 
 
